@@ -215,6 +215,10 @@ func execFork(p *Process, argv []string) error {
 	}*/
 
 	err := cmd.Wait()
+	if err != nil && strings.HasPrefix(err.Error(), "signal:") && p.ExitNum == 0 {
+		// killed by a signal: no error message needed but it must not count as a success
+		p.ExitNum = 1
+	}
 	if err != nil && !strings.HasPrefix(err.Error(), "signal:") && err.Error() != "wait: no child processes" {
 		//mxdtR.Close()
 		debug.Log(err)
